@@ -34,6 +34,8 @@ def render(script, vals, opts=None):
     g = lambda k: int(vals.get(k, 0))
     lines = [f"t0 {g('t0.t')}"]
     lines.append(f"tol {g('tol.d')}" if opts.get("tolerance") else "tol none")
+    if opts.get("pending"):
+        lines.append("capacity 1")  # mailboxes of capacity 1: coinciding sends to one model have to suspend
     for k, s in enumerate(opts.get("clock") or []):
         if s == "lag":
             lines.append(f"clock {k} lag {g(f'lag{k}.d')}")
